@@ -7,6 +7,7 @@ cd /repo || exit 9
 if [ -n "$(git status --porcelain --untracked-files=no)" ]; then echo "repo not clean"; exit 9; fi
 trap 'git -C /repo checkout -- . ; echo "[repo restored: $(git -C /repo status --porcelain --untracked-files=no | wc -l) modified]"' EXIT
 git apply "$patch" || { echo "patch does not apply"; exit 8; }
+export VERIF_EVIDENCE_DIR="${VERIF_EVIDENCE_DIR:-$(cd "$(dirname "$0")/.." && pwd)/.cache/evidence-scratch}"
 cd /verif
 VERIF_BUDGET_S="$budget" ./run "$prop" --tier "$tier" 2>&1 | grep -v "^KNOWN-FINDING" | cut -c1-400 | tail -12
 echo "check exit=${PIPESTATUS[0]}"
